@@ -187,7 +187,8 @@ def cap_cases(draw):
     if c[0] >= 360.0:
         c = [0.0, c[1]]             # documented: ra within [0,360)
     return {"centre": c, "rad": draw(RADIUS), "n": draw(st.one_of(st.integers(1, 20), st.integers(1, 300))),
-            "dorot": draw(st.booleans()), "get_radius": draw(st.booleans()), "rng": draw(RNG), "seed": draw(SEED)}
+            "dorot": draw(st.booleans()), "get_radius": draw(st.booleans()), "rng": draw(RNG), "seed": draw(SEED),
+            "centre_as": draw(st.sampled_from(["float", "float", "float", "arr0", "arr1"]))}
 
 
 def _cap_result(name, r, n, get_radius):
@@ -229,6 +230,11 @@ def check_randcap(case, ctx):
     n, rad = case["n"], case["rad"]
     kw = dict(get_radius=case["get_radius"], dorot=case["dorot"])
     name = "randcap(%d, %r, %r, %r, get_radius=%s, dorot=%s)" % (n, ra0, dec0, rad, case["get_radius"], case["dorot"])
+    how = case.get("centre_as", "float")
+    if how == "arr0":          # the centre taken from a catalogue: numpy values, handed over again in every call below
+        ra0, dec0 = np.array(ra0), np.array(dec0)
+    elif how == "arr1":
+        ra0, dec0 = np.array([ra0]), np.array([dec0])
     r = _cap_result(name, must(co.randcap, n, ra0, dec0, rad, rng=_rng(case["rng"], case["seed"]), **kw), n,
                     case["get_radius"])
     _check_cap(name, r, case)
@@ -384,6 +390,13 @@ def gen_cases(draw):
         for s in steps:
             xs.append(xs[-1] + s * scale)
         case["x"] = xs
+        if draw(st.integers(0, 5)) == 0:
+            # an integer-typed grid (bin numbers, np.arange): same meaning, other dtype
+            xi = [draw(st.integers(-20, 20))]
+            for _ in range(n - 1):
+                xi.append(xi[-1] + draw(st.integers(1, 4)))
+            case["x"] = [float(v) for v in xi]
+            case["xint"] = draw(st.sampled_from(["i8", "i4"]))
     if form in ("func-x", "func-range"):
         case["fkind"] = draw(st.sampled_from(["gauss", "poly", "sin"]))
         case["fpars"] = [draw(st.floats(-3.0, 3.0)), draw(st.floats(0.3, 3.0)), draw(st.floats(0.01, 1.0))]
@@ -420,6 +433,7 @@ def check_generator(case, ctx):
     if np.any(np.diff(x) <= 0):
         ctx.count("grid not strictly increasing after rounding: skipped")
         return
+    xin = x.astype(case["xint"]) if case.get("xint") else x
     if form == "cumulative":
         xv = sphere.ld(x)
         pc = sphere.ld(p) / sphere.ld(p)[-1]
@@ -429,11 +443,11 @@ def check_generator(case, ctx):
     npc = pc.size
     stub = StubUniform([0.5])
     if form == "points":
-        gen = must(er.Generator, p, x=x, rng=stub)
+        gen = must(er.Generator, p, x=xin, rng=stub)
     elif form == "cumulative":
-        gen = must(er.Generator, p, x=x, cumulative=True, rng=stub)
+        gen = must(er.Generator, p, x=xin, cumulative=True, rng=stub)
     elif form == "func-x":
-        gen = must(er.Generator, _density_fn(case["fkind"], case["fpars"]), x=x, rng=stub)
+        gen = must(er.Generator, _density_fn(case["fkind"], case["fpars"]), x=xin, rng=stub)
     else:
         gen = must(er.Generator, _density_fn(case["fkind"], case["fpars"]), xrange=list(case["xrange"]),
                    nx=case["nx"], rng=stub)
